@@ -108,6 +108,7 @@ type FnCtx struct {
 	pending []pendingObl
 	callN map[string]int
 	lets map[string]Val
+	inSpec int // >0 while a Go function is being evaluated inside a contract expression
 }
 
 type panicSite struct {
